@@ -89,7 +89,12 @@ def run(tier, seed, rng):
             wts = torch.randint(-3, 4, out.shape, generator=gen).double()
             (out * wts).sum().backward()
             gm = helper.get_grad().detach().clone()
-            a_f = helper.get_a_factor(x.clone()); g_f = helper.get_g_factor(got['go'].clone())
+            x_in, go_in = x.clone(), got['go'].clone()
+            a_f = helper.get_a_factor(x_in); g_f = helper.get_g_factor(go_in)
+            if not (torch.equal(x_in, x) and torch.equal(go_in, got['go'])):
+                failures.append(Failure(what='conv get_a_factor / get_g_factor modified the tensor it was given (activations / output gradients are still needed by autograd)',
+                                        case={'kind': 'conv', 'geom': g, 'bias': hb, 'seed': sd}, oracle_rejects=True, correspondence=CORRESPONDENCES[0], theorems=THEOREMS,
+                                        oracle='factor helpers are read-only on their arguments'))
             # position revealing set/get round trip
             # (thirds: not representable in any narrower float type - the round trip must not pass through one)
             M = (torch.arange(gm.numel(), dtype=torch.float64).reshape(gm.shape) + 1) / 3
@@ -191,7 +196,11 @@ def run(tier, seed, rng):
         rows = x.numel() // nin
         a2, g2 = x.reshape(rows, nin), got['go'].reshape(rows, nout)
         ora = g2.t() @ (torch.cat([a2, torch.ones(rows, 1, dtype=torch.float64)], 1) if hb else a2)
-        a_f = helper.get_a_factor(x.clone()); g_f = helper.get_g_factor(got['go'].clone())
+        x_in, go_in = x.clone(), got['go'].clone()
+        a_f = helper.get_a_factor(x_in); g_f = helper.get_g_factor(go_in)
+        if not (torch.equal(x_in, x) and torch.equal(go_in, got['go'])):
+            failures.append(Failure(what='linear get_a_factor / get_g_factor modified the tensor it was given', case={'kind': 'linear', 'nin': nin, 'nout': nout, 'lead': lead, 'bias': hb, 'seed': sd},
+                                    oracle_rejects=True, correspondence=CORRESPONDENCES[1], theorems=THEOREMS, oracle='factor helpers are read-only on their arguments'))
         lins.append((nin, nout, lead, hb, sd)); limpl.append((gm, ora, tuple(a_f.shape), tuple(g_f.shape), tuple(helper.a_factor_shape), tuple(helper.g_factor_shape)))
         largs.append(('lin_grad_matrix', [rows, nin, nout, int(hb), nest(g2), nest(a2)]))
     louts = common.run_model_sharded(largs)
